@@ -37,7 +37,7 @@ GROUP_OF = {"covalent_radius": "covalent_radius", "covalent_radius_units": "cova
             "K_alpha": "emission", "K_beta1": "emission", "K_alpha_units": "emission",
             "K_beta1_units": "emission", "magnetic_ff": "magnetic_ff"}
 GROUPS = ["covalent_radius", "crystal_structure", "neutron", "activation", "xray", "emission", "magnetic_ff",
-          "mass_density"]      # the last one is not lazy; it is in the digest for the isolation property (C10)
+          "mass_density", "core"]      # the last two are not lazy; they are in the digest for the isolation property (C10)
 ROUTES = ["el+", "el-", "iso", "iso2", "ion", "isoion", "D", "n"]
 MODULES = ["nsf", "xsf", "covalent_radius", "crystal_structure", "magnetic_ff", "activation", "fasta",
            "formulas", "cromermann"]
@@ -172,6 +172,16 @@ def group_values(table, group):
             out.append([el.number, _get(el, "magnetic_ff")])
         for atom in (table.Fe.ion[2], table.Fe[56], table.D):
             out.append([repr(atom), _get(atom, "magnetic_ff")])
+    elif group == "core":
+        # what every table serves from core.py: names, symbols, charge and isotope lists, D/T aliases
+        for el in table:
+            out.append([el.number, el.symbol, el.name, canon(el.ions), canon(el.isotopes),
+                        sorted(vars(el.ion).get("ionset", {})) and None])
+            for iso in list(el)[:3]:
+                out.append([el.number, iso.isotope, canon(iso.ions), _get(iso, "symbol"), _get(iso, "name")])
+        for atom in (table.D, table.T, table.Fe.ion[2], table.Fe[56].ion[2], table.D.ion[1]):
+            out.append([repr(atom), atom.symbol, atom.name, atom.number, canon(atom.ions), atom.charge,
+                        getattr(atom, "isotope", 0)])
     elif group == "mass_density":
         for el in table:
             out.append([el.number, _get(el, "mass"), _get(el, "density"), _get(el, "number_density"),
